@@ -1006,7 +1006,7 @@ PROPS = {
     },
     "C04": {
         "search": search_completion,
-        "suites": [("completion", 1500, 30000), ("analyze", 800, 20000)],
+        "suites": [("completion", 1500, 30000), ("analyze", 800, 20000), ("tau_star", 1200, 30000)],
         "extra": glue_theory_extra("C04", "completion"),
         "rule": "theories = tau* of seeded programs + hand-shaped implication theories (atom / #false / malformed consequents, repeated and non-variable head arguments, "
                 "reverse implications, free variables) with random input-predicate sets; Completion::completion vs Lean `completion` (incl. None), and is_tight vs `isTight`",
